@@ -17,8 +17,9 @@ from ..common import allclose, fr, pin_repo
 from ..sched import ReplayScheduler
 
 INV = ["DistancesAreSquaredEuclidean", "LabelIsNearest", "WeightsAreFractions", "VarIsBiasedVar",
-       "HandOverExact", "TranslationInvariant"]
-OFFSETS = [0.0, 1e4, 1e8]
+       "HandOverExact", "TranslationInvariant", "ScaleEquivariant"]
+# harness-level placements of the exact scenario: (unit scale, offset)
+PLACEMENTS = [(1.0, 0.0), (1.0, 1e4), (1.0, 1e8), (1e-5, 0.0), (1e3, 0.0)]
 
 
 def model_run(ck, name, n, dm, k, data, cents, comps, coverage=False):
@@ -54,8 +55,8 @@ def run(ck):
     comps2 = [c for c in km.compositions(n2) if len(c) <= (2 if quick else 3)]
     recs += model_run(ck, "stats-2d-k3", n2, 2, 3, d2, c2, comps2, coverage=not quick)
     ck.exhaustive = True
-    if quick and len(recs) > 500:
-        recs = rng.sample(recs, 500)
+    if quick and len(recs) > 300:
+        recs = rng.sample(recs, 300)
     for rec in recs:
         replay(ck, em, rec, rng)
 
@@ -72,12 +73,13 @@ def replay(ck, em, rec, rng):
     free = np.array([[x == [0, 0] for x in row] for row in rec["variances"]])
     exp_v = np.array([[0.0 if x == [0, 0] else float(fr(x)) for x in row] for row in rec["variances"]])
     comp = tuple(rec["comp"])
-    for B in OFFSETS:
+    for S, B in PLACEMENTS:
         ck.replayed += 1
-        ck.seen([rec["data"], rec["cent"], rec["comp"], B])
-        X = data + B
-        C = cent + B
-        scn = {"data": rec["data"], "cent": rec["cent"], "comp": rec["comp"], "offset": B}
+        ck.seen([rec["data"], rec["cent"], rec["comp"], S, B])
+        X = data * S + B
+        C = cent * S + B
+        S2 = S * S
+        scn = {"data": rec["data"], "cent": rec["cent"], "comp": rec["comp"], "unit_scale": S, "offset": B}
 
         def bad(clause, detail):
             ck.violation("M2:KMeansStats:" + clause, {"mechanism": "M2", "module": "KMeansStats", "scenario": scn,
@@ -85,7 +87,7 @@ def replay(ck, em, rec, rng):
         m = em.KMeansMachine(K)
         m.centroids_ = C.copy()
         # transform / predict
-        d = np.asarray(m.transform(X))
+        d = np.asarray(m.transform(X)) / S2
         if d.shape != exp_d.shape or not allclose(d, exp_d) or np.any(d < 0):
             bad("DistancesAreSquaredEuclidean", "transform(batch): expected %s, observed %s" % (exp_d.tolist(), d.tolist()))
             continue
@@ -93,7 +95,7 @@ def replay(ck, em, rec, rng):
             bad("LabelIsNearest", "predict(batch): expected %s, observed %s" % (exp_l.tolist(), np.asarray(m.predict(X)).tolist()))
             continue
         i = rng.randrange(len(X))
-        d1 = np.asarray(m.transform(X[i]))
+        d1 = np.asarray(m.transform(X[i])) / S2
         if d1.shape != (K, 1) or not allclose(d1[:, 0], exp_d[:, i]):
             bad("DistancesAreSquaredEuclidean", "transform(single sample %d): expected %s, observed %s" % (i, exp_d[:, i].tolist(), d1.tolist()))
             continue
@@ -103,7 +105,7 @@ def replay(ck, em, rec, rng):
             continue
         with dask.config.set(scheduler="synchronous"):
             Xd = da.from_array(X, chunks=(comp, X.shape[1]))
-            dd = np.asarray(m.transform(Xd).compute())
+            dd = np.asarray(m.transform(Xd).compute()) / S2
             pd = np.asarray(m.predict(Xd).compute()) if hasattr(m.predict(Xd), "compute") else np.asarray(m.predict(Xd))
         if dd.shape != exp_d.shape or not allclose(dd, exp_d):
             bad("DistancesAreSquaredEuclidean", "transform(dask %s): expected %s, observed %s" % (comp, exp_d.tolist(), dd.tolist()))
@@ -120,7 +122,7 @@ def replay(ck, em, rec, rng):
                 sch = ReplayScheduler(rng=random.Random(rng.randrange(10 ** 6)), isolate=(mode == "dask-isolated"))
                 with dask.config.set(scheduler=sch):
                     v, w = m.get_variances_and_weights_for_each_cluster(da.from_array(X, chunks=(comp, X.shape[1])))
-            v, w = np.asarray(v, dtype=float), np.asarray(w, dtype=float)
+            v, w = np.asarray(v, dtype=float) / S2, np.asarray(w, dtype=float)
             if w.shape != exp_w.shape or not allclose(w, exp_w) or abs(w.sum() - 1) > 1e-9:
                 bad("WeightsAreFractions", "%s: expected weights %s, observed %s" % (mode, exp_w.tolist(), w.tolist()))
                 ok = False
@@ -137,8 +139,8 @@ def replay(ck, em, rec, rng):
             g = em.GMMMachine(K, k_means_trainer=em.KMeansMachine(K, init_method=C.copy(), max_iter=0), max_fitting_steps=0)
             g.fit(X)
             eps = np.finfo(float).eps
-            if not (allclose(np.asarray(g.means), C, 1e-12) and allclose(np.asarray(g.weights), exp_w)
-                    and allclose(np.asarray(g.variances), np.maximum(exp_v, eps))):
+            if not (allclose((np.asarray(g.means) - B) / S, cent, 1e-9 if B else 1e-12) and allclose(np.asarray(g.weights), exp_w)
+                    and allclose(np.asarray(g.variances) / S2, np.maximum(exp_v, eps / S2))):
                 bad("HandOverExact", "GMM initialised from k-means: means %s variances %s weights %s; expected %s %s %s"
                     % (np.asarray(g.means).tolist(), np.asarray(g.variances).tolist(), np.asarray(g.weights).tolist(),
                        C.tolist(), exp_v.tolist(), exp_w.tolist()))
